@@ -202,8 +202,13 @@ def _alarm(signum, frame):
 
 def judge_c08(y, ref, exact, check_dtype, out=None, watchdog=20):
     expr = y.expr
+    # the watchdog counts the CPU time of this process (ITIMER_VIRTUAL): a pass
+    # that does not terminate burns CPU, a process that is merely starved on a
+    # busy machine does not; a long wall-clock alarm backs it up for blocking
     old = signal.signal(signal.SIGALRM, _alarm)
-    signal.alarm(watchdog)
+    oldv = signal.signal(signal.SIGVTALRM, _alarm)
+    signal.alarm(watchdog * 30)
+    signal.setitimer(signal.ITIMER_VIRTUAL, watchdog)
     try:
         stage = "simplify"
         try:
@@ -215,12 +220,13 @@ def judge_c08(y, ref, exact, check_dtype, out=None, watchdog=20):
             stage = "optimize"
             opt = expr.optimize()
         except _Timeout:
-            return ("non-termination", stage, f"{stage} did not return within {watchdog}s")
+            return ("non-termination", stage, f"{stage} did not return within {watchdog}s of CPU time")
         except NotImplementedError:
             return ("refused", "", "")
         except Exception as e:
             # allowed only if the unoptimized compute raises too
-            signal.alarm(watchdog)
+            signal.alarm(watchdog * 30)
+            signal.setitimer(signal.ITIMER_VIRTUAL, watchdog)
             try:
                 with dask.config.set({"array.optimize-graph": False}):
                     G.fresh(y).compute(scheduler="sync")
@@ -250,7 +256,7 @@ def judge_c08(y, ref, exact, check_dtype, out=None, watchdog=20):
             if c3.expr._name != c1.expr._name:
                 return ("optimize-not-idempotent", "collection-fresh:" + _tree_delta(c1.expr, c3.expr), f"optimizing a fresh collection over the optimized expression renamed {c1.expr._name} -> {c3.expr._name}")
         except _Timeout:
-            return ("non-termination", stage, f"{stage} did not return within {watchdog}s")
+            return ("non-termination", stage, f"{stage} did not return within {watchdog}s of CPU time")
         except NotImplementedError:
             return ("refused", "", "")
         except Exception as e:
@@ -264,7 +270,9 @@ def judge_c08(y, ref, exact, check_dtype, out=None, watchdog=20):
                 out.count("fuse_changed")
     finally:
         signal.alarm(0)
+        signal.setitimer(signal.ITIMER_VIRTUAL, 0)
         signal.signal(signal.SIGALRM, old)
+        signal.signal(signal.SIGVTALRM, oldv)
     return None
 
 
